@@ -197,7 +197,14 @@ func c10ConcCase(cc *run.Case, kind string, h int) {
 	// append to the SAME asset at once. Nothing may be lost and each writer's
 	// snapshots must keep their order (conservation, checked after the run).
 	const sharedWriters, sharedEach = 3, 8
-	if kind == "memory" {
+	// (file-system and SQL repositories: the asset exists before the writers
+	// start and every batch is a single small write / a few inserts, which the
+	// append mode of the file and the driver keep whole)
+	if err := repo.Append("shared", helper.SliceToChan([]*asset.Snapshot{concSnap(salt, 99, 0)})); err != nil {
+		cc.Viol("", fmt.Sprintf("%s repository: Append(shared) returned an error: %v", kind, err), desc)
+		return
+	}
+	{
 		for w := 0; w < sharedWriters; w++ {
 			wg.Add(1)
 			go func(w int) {
@@ -222,26 +229,31 @@ func c10ConcCase(cc *run.Case, kind string, h int) {
 	close(start)
 	wg.Wait()
 
-	if kind == "memory" {
+	{
 		c, err := repo.Get("shared")
 		if err != nil {
-			cc.Viol("", "memory repository, concurrent writers of one asset: Get failed: "+err.Error(), desc)
+			cc.Viol("", kind+" repository, concurrent writers of one asset: Get failed: "+err.Error(), desc)
 			return
 		}
 		next := make([]int, sharedWriters)
 		total := 0
+		first := true
 		for s := range c {
+			if first { // the snapshot that created the asset
+				first = false
+				continue
+			}
 			w := int(math.Round(s.Open-salt))/1000 - 100
 			d := int(math.Round(s.Date.Sub(day0).Hours() / 24))
 			if w < 0 || w >= sharedWriters || d != next[w] {
-				cc.Viol("", fmt.Sprintf("memory repository, %d concurrent writers of one asset: snapshot %d of the asset is writer %d's day %d, that writer's next one is day %d (a snapshot was lost, duplicated or reordered)", sharedWriters, total, w, d, next[max(0, min(w, sharedWriters-1))]), desc)
+				cc.Viol("", fmt.Sprintf(kind+" repository, %d concurrent writers of one asset: snapshot %d of the asset is writer %d's day %d, that writer's next one is day %d (a snapshot was lost, duplicated or reordered)", sharedWriters, total, w, d, next[max(0, min(w, sharedWriters-1))]), desc)
 				return
 			}
 			next[w]++
 			total++
 		}
 		if total != sharedWriters*sharedEach {
-			cc.Viol("", fmt.Sprintf("memory repository, %d concurrent writers of one asset: %d of the %d appended snapshots are stored (appends that had returned were lost)", sharedWriters, total, sharedWriters*sharedEach), desc)
+			cc.Viol("", fmt.Sprintf(kind+" repository, %d concurrent writers of one asset: %d of the %d appended snapshots are stored (appends that had returned were lost)", sharedWriters, total, sharedWriters*sharedEach), desc)
 			return
 		}
 		cc.Count("conc_shared_asset_snapshots", int64(total))
@@ -312,9 +324,7 @@ func c10ConcCase(cc *run.Case, kind string, h int) {
 					}
 					delete(have, n)
 				}
-				if kind == "memory" {
-					delete(have, "shared") // the multi-writer asset below
-				}
+				delete(have, "shared") // the multi-writer asset below
 				for n := range have {
 					fail(rd, fmt.Sprintf("Assets() lists %q, which nobody appended", n))
 					return
